@@ -18,6 +18,11 @@ Theorem C01_formats_as_modelled : struct_fmts = modelled_fmts.
 Proof. reflexivity. Qed.
 Print Assumptions C01_formats_as_modelled.
 
+(* --- tie of the constructors the harness builds messages through (parameters, defaults, statements) --- *)
+Theorem C01_constructors_as_modelled : ctor_sigs = modelled_ctors.
+Proof. reflexivity. Qed.
+Print Assumptions C01_constructors_as_modelled.
+
 (* --- bit packing: pack_bitstring / unpack_bitstring = LSB-first packing, zero padding ------ *)
 Theorem C01_bitpack : forall bits, py_pack_bitstring bits = spec_pack_bits bits.
 Proof. exact py_pack_spec. Qed.
